@@ -5,8 +5,26 @@ Transit world: a real `TransitSender`/`TransitReceiver` (real `connect()`, `_con
 `Connection`), real HKDF handshake strings, `task.Clock` as reactor, in-memory transports and
 endpoints.  Every op line is also run by the Lean model (`WV.C07.driver`); the oracle below states
 the property on what the real objects did.
+
+LATE contenders (op `accept`, two-sided `link sl k`): under "the port accepts exactly until stopListening()" no
+connection can finish its handshake once `_winner` is set - `connection_ready`'s nevermind branch is then dead code and
+nothing run here would notice if it broke.  The property speaks of early OR LATE contenders, and IListeningPort only
+promises that stopListening() *eventually* closes the port.  So, once a side has made its selection, the world lets
+the (stopped) port hand the real InboundConnectionFactory further connections: key holders with their handshake cut at
+every byte position, strangers, partial handshakes that run into the 60 s timer, several at once, with the winner alive,
+lost, mid-record or hung up; two-sided, the Receiver's second dial reaching the Sender after its selection.  Oracle:
+never a second go (`late-contender-confirmed`, `two-go`), nevermind + close as soon as the handshake is complete
+(`late-contender-not-refused`), never selected (`late-contender-selected`, `two-selected`, `not-same-link`), closed by the
+first wrong byte or the timer (`stranger-not-closed`, `conn-timeout-missed`).  Model: `evAccept`, `runL`, `drunL`;
+theorems in WV.Props.C07_Late.  Not generated: arrivals after a FAILED connect() (there the closed port is the code's
+only defence: `port_closed_once_fired`; a port that leaked then would make HEAD say go after its connect() failed).
+
+After the last compared line, `zombie_probe` (observation only, no model counterpart) completes every outbound attempt
+that was cancelled while still connecting - an endpoint whose cancel is asynchronous - and checks that such a connection
+is never confirmed and does not stay open (`cancelled-attempt-confirmed`, `cancelled-attempt-left-open`).
 """
 import itertools
+import os
 import random
 import time
 from unittest import mock
@@ -23,12 +41,19 @@ from ..core import Result
 from ..fakes import hx
 
 ID = "C07"
-PROP_MODULES = ["WV.Props.C07"]
+PROP_MODULES = ["WV.Props.C07", "WV.Props.C07_Late"]
+# the truthiness pin needs three facts that tools/extract.py generates only from the round-9 version on
+# (connection_ready_winner_test, connection_truth_hooks, winner_test_means_is_set); its file comes with that change
+if os.path.exists(os.path.join(os.path.dirname(os.path.abspath(__file__)), "..", "..", "lean", "WV", "Props", "C07_Pin.lean")):
+    PROP_MODULES.append("WV.Props.C07_Pin")
 TRUSTED = ["HKDF/SHA-256: the sender, receiver and relay handshake strings of a key are parameters of the model (distinct, "
            "neither a prefix of the other: hypotheses of the theorems; the harness uses the real strings)",
            "Twisted Deferred semantics (cancel() fires synchronously; callbacks run in order) and task.Clock ordering",
            "transports deliver no dataReceived after loseConnection()/connectionLost (the harness never does)",
-           "the listening port (a harness object) accepts connections exactly while stopListening() has not been called",
+           "the listening port (a harness object) accepts connections (op `inbound`) exactly while stopListening() has not been "
+           "called; what it may still hand to the factory afterwards is an event of its own (op `accept`, a LATE contender), "
+           "generated only once this side has made its selection - after a FAILED connect() the closed port is the code's only "
+           "defence (theorem port_closed_once_fired), so no arrival is generated there",
            "real TCP connect/refuse/timeout behaviour, DNS, Tor",
            "the record layer after negotiation (C06): only its boundary is modelled - an incomplete length prefix / "
            "incomplete record waits, a complete record is handed over; no harness peer holds the record keys, so a "
@@ -39,7 +64,11 @@ RULE = ("a real TransitSender/TransitReceiver with 0-1 listener, 0-3 direct and 
         "clock advances up to and beyond the per-connection timeout and the connect() deadline; thorough adds every "
         "interleaving of 3 connections x 3 progress points; two-sided runs: a real TransitSender and a real TransitReceiver "
         "with the same key whose connections are joined by links (direct either way, via relay, racing links) that pipe "
-        "the written bytes in order in random pieces, plus strangers on unlinked connections, with the same_link oracle; non-trivial = at least one connection finished its handshake "
+        "the written bytes in order in random pieces, plus strangers on unlinked connections, with the same_link oracle; "
+        "LATE contenders: once a side has made its selection its listening port (stopped by then) still hands "
+        "the factory further connections - key holders whose handshake is cut at every byte position, strangers, partial handshakes "
+        "that time out, several late contenders interleaved, with the winner alive, lost or busy; two-sided: the Receiver's second "
+        "dial reaches the Sender after its selection (late link); non-trivial = at least one connection finished its handshake "
         "or was rejected; distinct = distinct canonical traces")
 
 KEY = bytes(range(32))
@@ -89,7 +118,11 @@ class FakeEndpoint:
     def connect(self, f):
         assert self.d is None
         self.factory = f
-        self.d = defer.Deferred()
+        self.cancelled = False
+
+        def canceller(d):
+            self.cancelled = True          # Deferred.cancel() then errbacks it with CancelledError, as without a canceller
+        self.d = defer.Deferred(canceller)
         return self.d
 
 
@@ -207,11 +240,22 @@ class World:
     def fired(self):
         return self.result is not None and self.result.res != "pending"
 
-    def _new_conn(self, factory, relay):
+    def selected(self):
+        """has this side made its selection?  The Sender: `_winner` is set; the Receiver: a negotiation succeeded."""
+        if self.sender:
+            return self.t._winner is not None
+        return any(c["obs"].res != "pending" and c["obs"].res[0] == "ok" for c in self.conns)
+
+    def can_accept(self):
+        return self.listener_obs is not None and self.selected()
+
+    def _new_conn(self, factory, relay, forced=False):
         p = factory.buildProtocol(IPv4Address("TCP", "10.0.0.9", 9))
         p.callLater = self.clock.callLater
+        # `late`: came through the OPEN port after connect() had fired (the port's lifetime is wrong);
+        # `forced`: a late contender handed over by a port that had been told to stop (op `accept`)
         c = dict(p=p, tr=FakeTransport(), obs=Obs(p._negotiation_d), rx=b"", relay=relay, gone=False,
-                 born=self.clock.seconds(), late=self.fired())
+                 born=self.clock.seconds(), late=self.fired() and not forced, forced=forced)
         self.conns.append(c)
         return c
 
@@ -246,6 +290,16 @@ class World:
             if raised is not None:
                 # startNegotiation() raised before the factory subscribed to the negotiation Deferred: nobody ever
                 # will; what it is going to errback with is fixed.  Reported (like the model does) as failed.
+                c["orphan"] = type(raised).__name__
+        elif k == "accept":
+            # a LATE contender: this side has made its selection (so stopListening() was called), and the port still
+            # hands one more connection to the InboundConnectionFactory: an accept that raced with the stop, a backlog,
+            # a listener that is slower than tcp.Port.  Nobody is left to cancel it.
+            if not self.can_accept():
+                return None
+            c = rc = self._new_conn(self.t._listener_f, False, forced=True)
+            raised = self._guard(lambda: c["p"].makeConnection(c["tr"]))
+            if raised is not None:
                 c["orphan"] = type(raised).__name__
         elif k == "portclosed":
             # the listening port finishes closing (a reactor turn or more after stopListening())
@@ -315,6 +369,7 @@ class World:
                 return None
             data = bytes.fromhex(op[2])
             c["rx"] += data
+            c.setdefault("chunks", []).append(len(data))
             raised = self._guard(lambda: c["p"].dataReceived(data))
         elif k == "lost":
             i = op[1]
@@ -419,6 +474,19 @@ class World:
                     v.append(("selected-without-handshake", f"conn {i}: state={p.state} after {c['rx'][:60]!r}"))
                 if self.sender and GO not in tr.written:
                     v.append(("records-without-go", f"conn {i}: sender in records without writing go"))
+            if c["forced"]:
+                # a late contender: never confirmed, and refused + closed as soon as its handshake is complete
+                if GO in tr.written:
+                    v.append(("late-contender-confirmed", f"conn {i} reached the factory after the selection was made "
+                                                          f"(_winner = conn {self.idx(self.t._winner) if self.t._winner is not None else None}) "
+                                                          f"and the Sender wrote {wrote!r} on it: a second 'go'"))
+                if self.sender and complete and (NEVERMIND not in tr.written or not tr.lost or p.state != "hung up"):
+                    v.append(("late-contender-not-refused", f"conn {i}: a late contender presented the complete receiver "
+                                                            f"handshake; wanted nevermind + close, got wrote={wrote!r} "
+                                                            f"lost={tr.lost} state={p.state}"))
+                if negotiated or p.state == "records":
+                    v.append(("late-contender-selected", f"conn {i} reached the factory after the selection was made and "
+                                                         f"was selected too (state={p.state})"))
             if diverged and not tr.lost:
                 v.append(("stranger-not-closed", f"conn {i}: peer sent {c['rx'][:40]!r}, connection still open in state {p.state}"))
             if now >= c["born"] + CONN_TIMEOUT and not tr.lost and not c["gone"] and p.state != "records":
@@ -450,7 +518,7 @@ class World:
                 tc = getattr(c["p"], "_TimeoutMixin__timeoutCall", None)
                 if tc is not None:
                     timers.add(id(tc))
-                if i != won and not c["tr"].lost and not c["gone"]:
+                if i != won and not c["tr"].lost and not c["gone"] and not c["forced"]:
                     v.append(("conn-outlives-connect", f"connect() has fired ({self.show_res(self.result.res)}) but conn {i} "
                                                        f"is still open (state={c['p'].state})"))
             for dc in self.clock.getDelayedCalls():
@@ -474,7 +542,7 @@ class World:
                     v.append(("result-not-selected", f"connect() returned {what}: not a Connection that completed the "
                                                      f"handshake; negotiated={ok_conns} go={go_conns}"))
                 for i, c in enumerate(self.conns):
-                    if i != w and not c["tr"].lost and not c["gone"]:
+                    if i != w and not c["tr"].lost and not c["gone"] and not c["forced"]:
                         v.append(("loser-left-open", f"connect() returned conn {w} but conn {i} is still open (state={c['p'].state})"))
             if r != "pending" and r[0] == "fail" and ok_conns:
                 v.append(("failed-but-selected", f"connect() failed with {r[1]} although negotiation succeeded on {ok_conns}"))
@@ -486,6 +554,51 @@ class World:
 
 def spec(l):
     return ",".join(str(x) for x in l) or "-"
+
+
+def zombie_probe(w, prefix=""):
+    """Observation only, AFTER the last compared line (the model has no counterpart): outbound attempts whose cancel was
+    asynchronous.  `there_can_be_only_one` / the deadline cancelled the endpoint's connect() Deferred while the attempt
+    was still connecting; an endpoint whose canceller cannot stop the attempt at once (Tor, a proxy) completes it all
+    the same: the protocol is built and connected, the endpoint's late callback(p) is swallowed by the cancelled
+    Deferred, so nobody ever calls startNegotiation().  Such a connection must never be confirmed and must not stay
+    open: the first one is sent the complete handshake, the others stay silent for TIMEOUT seconds.
+    Returns (violations, tags)."""
+    viol, tags = [], []
+    zs = []
+    for lab, ep in w.eps.items():
+        if ep.d is None or not ep.d.called or ep.factory is None:
+            continue
+        if any(c["p"].factory is ep.factory for c in w.conns):
+            continue                                   # it did connect in time
+        if not getattr(ep, "cancelled", False):
+            continue                                   # it failed by itself: no connection
+        relay = lab.startswith("r")
+        p = ep.factory.buildProtocol(IPv4Address("TCP", "10.0.0.9", 9))
+        p.callLater = w.clock.callLater
+        tr = FakeTransport()
+        w._guard(lambda: p.makeConnection(tr))
+        w._guard(lambda: ep.d.callback(p))             # swallowed: the Deferred was cancelled
+        zs.append((lab, p, tr, relay))
+    for n, (lab, p, tr, relay) in enumerate(zs):
+        if n == 0:
+            hs = (b"ok\n" if relay else b"") + w.expect_this + (b"" if w.sender else GO)
+            for piece in (hs[:30], hs[30:]):
+                if not tr.lost:
+                    w._guard(lambda: p.dataReceived(piece))
+            tags.append(f"zombie:{prefix}handshake-sent")
+    if zs:
+        w._guard(lambda: w.clock.advance(CONN_TIMEOUT))
+    for lab, p, tr, relay in zs:
+        wrote = b"".join(tr.written)
+        if GO in tr.written or p.state == "records":
+            viol.append(("cancelled-attempt-confirmed", f"attempt {lab} was cancelled while connecting, connected all the same, "
+                                                       f"and ended selected: state={p.state} wrote={wrote!r}"))
+        if not tr.lost:
+            viol.append(("cancelled-attempt-left-open", f"attempt {lab} was cancelled while connecting, connected all the same, "
+                                                        f"and is still open after the complete handshake / {CONN_TIMEOUT}s: state={p.state}"))
+        tags.append(f"zombie:{prefix}{'closed' if tr.lost else 'open'}")
+    return viol, tags
 
 
 def new_line(w):
@@ -502,6 +615,40 @@ def op_line(op, w=None):
         W = w.S if op[0] == "S" else w.R
         return f"{op[0]} connfail {op[2]} {getattr(W, 'last_cls', 'ConnectionRefusedError')}"
     return " ".join(str(x) for x in op)
+
+
+def late_tags(W, prefix=""):
+    """what became of the late contenders (op `accept`) of one side"""
+    tags = []
+    for c in W.conns:
+        if not c["forced"]:
+            continue
+        pre = b"ok\n" if c["relay"] else b""
+        full = c["rx"].startswith(pre + W.expect_this)
+        wrote = c["tr"].written
+        if NEVERMIND in wrote:
+            how = "nevermind"
+        elif GO in wrote:
+            how = "GO"
+        elif c["p"].state == "records":
+            how = "selected"
+        elif c.get("orphan"):
+            how = "orphan"
+        elif isinstance(c["p"]._error, transit.BadHandshake) and "timeout" in str(c["p"]._error):
+            how = "timed-out"
+        elif c["p"].state == "hung up":
+            how = "rejected"
+        elif c["gone"]:
+            how = "hung-up-by-peer"
+        else:
+            how = "still-negotiating"
+        tags.append(f"late:{prefix}{'S' if W.sender else 'R'}:{how}")
+        if full and W.sender:
+            tags.append(f"late:{prefix}complete-handshake-in-{min(len([1 for _ in c.get('chunks', [])]), 9) or 'n'}-reads")
+    if any(c["forced"] for c in W.conns):
+        tags.append(f"late:{prefix}contenders:{sum(1 for c in W.conns if c['forced'])}")
+        tags.append(f"late:{prefix}winner-{'gone' if any(not c['forced'] and c['p'].state == 'records' and (c['gone'] or c['tr'].lost) for c in W.conns) else 'alive'}")
+    return tags
 
 
 def run_case(case):
@@ -526,6 +673,7 @@ def run_case(case):
         tags.append("records:complete-record-raised")
     if any(c["p"].state == "records" and len(c["p"].buf) >= 4 for c in w.conns):
         tags.append("records:incomplete-record-waiting")
+    tags += late_tags(w)
     states = {c["p"].state for c in w.conns}
     for st in states:
         tags.append("final:" + str(st))
@@ -535,12 +683,18 @@ def run_case(case):
     for k in case.get("kinds", []):
         tags.append("peer:" + k)
     nontrivial = any(c["p"].state in ("records", "hung up") for c in w.conns)
-    return Result(lines, exp, viol, tags, nontrivial)
+    zv, zt = zombie_probe(w)
+    for s_, m in zv:
+        if s_ not in seen:
+            seen.add(s_)
+            viol.append((s_, m))
+    return Result(lines, exp, viol, tags + zt, nontrivial)
 
 
 # ---------------------------------------------------------------------------------------------
 # generators
 
+LATE_KINDS = ["honest", "honest", "honest", "honest", "partial", "partial", "stranger", "wrongkey", "offbyone", "extra", "silent"]
 PEER_KINDS = ["honest", "honest", "honest", "stranger", "wrongkey", "reflected", "partial", "offbyone", "silent", "extra"]
 
 
@@ -666,6 +820,15 @@ def gen_case(rng, big=False):
         return r
 
     def new_peer(i):
+        if w.conns[i]["forced"]:
+            # a late contender: a key holder (the peer's second address, a slow route) or anybody else.  An honest
+            # Sender has said go already, so what a late connection of the Receiver hears is nevermind, or nothing.
+            kind = rng.choice(LATE_KINDS)
+            kinds.append("late-" + kind)
+            decision = b"" if w.sender else rng.choice([NEVERMIND, NEVERMIND, NEVERMIND, b"", b"never", b"\n"])
+            s = peer_script(rng, w, False, kind, decision)
+            pending[i] = chunk(rng, s, rng.choice(["rand", "rand", "one", "all"]) if len(s) < 300 else "rand")
+            return
         kind = rng.choice(PEER_KINDS)
         kinds.append(kind)
         if w.sender:
@@ -736,13 +899,17 @@ def gen_case(rng, big=False):
             choices += ["portclosed"] * 3
         if not w.started:
             choices += ["connect"]
+        if w.can_accept() and len(w.conns) < 7:
+            choices += ["accept"] * 4
         if rng.random() < 0.06:
             choices = [rng.choice(["inbound", ("connected", rng.randrange(6)), ("connfail", rng.randrange(6)),
-                                   ("junk", rng.randrange(6)), ("lost", rng.randrange(6)), "connect"])]
+                                   ("junk", rng.randrange(6)), ("lost", rng.randrange(6)), "connect", "accept"])]
         ch = rng.choice(choices)
         n0 = len(w.conns)
         if ch == "inbound":
             do(["inbound"])
+        elif ch == "accept":
+            do(["accept"])
         elif ch == "connect":
             do(["connect"])
         elif ch == "advance":
@@ -765,6 +932,31 @@ def gen_case(rng, big=False):
             new_peer(i)
         if w.port is not None and w.port.closing() and rng.random() < 0.6:
             do(["portclosed"])          # usually the port is gone a reactor turn later; sometimes it takes longer
+    if w.can_accept() and rng.random() < 0.7:
+        # LATE contenders, once the selection is made: up to three of them, their bytes interleaved with each other, with
+        # losses (of the winner too), the port finishing to close, a late connect(), and time passing
+        for _ in range(rng.randrange(3, 16)):
+            ch = []
+            if sum(1 for c in w.conns if c["forced"]) < 3 and len(w.conns) < 8:
+                ch += [["accept"]] * 3
+            for i, chunks in pending.items():
+                if chunks and w.conns[i]["forced"] and not w.conns[i]["tr"].lost and not w.conns[i]["gone"]:
+                    ch += [["data", i, None]] * 6
+            for i, c in enumerate(w.conns):
+                if not c["gone"]:
+                    ch += [["lost", i]] * (2 if c["tr"].lost else 1)
+            ch += [["advance", rng.choice([0, 1, 1, 2, 30, 59, 60, 61])]]
+            if w.port is not None and w.port.closing():
+                ch += [["portclosed"]] * 2
+            if not w.started:
+                ch += [["connect"]] * 2
+            op = list(rng.choice(ch))
+            if op[0] == "data":
+                op[2] = hx(pending[op[1]].pop(0))
+            n0 = len(w.conns)
+            do(op)
+            for i in range(n0, len(w.conns)):
+                new_peer(i)
     if not w.started and rng.random() < 0.8:
         do(["connect"])
     if rng.random() < 0.6:
@@ -897,6 +1089,53 @@ def corpus():
     c(dict(role="S", listener=False, dhints=[], rhints=[["bad_relay", 1, 0]]), [["connect"], ["advance", 0], ["connfail", 0, "real"]], "connfail-real-relay")
     # cancelled connection whose timer is still running
     c(dict(L, directs=1), [["connect"], ["inbound"], ["connected", 1], ["data", 1, hx(E_s)], ["advance", 60], ["lost", 0], ["advance", 60]], "cancelled-then-timeout")
+    # ---- LATE contenders: the selection is made, the port has been told to stop, and hands over one more connection.
+    # Nobody is left to cancel it; the Sender's answer to a complete handshake must be nevermind + close.
+    def pieces(i, b, n):
+        return [["data", i, hx(b[j:j + n])] for j in range(0, len(b), n)]
+    LD = dict(L, directs=1)
+    # an outbound winner, a half-negotiated inbound loser (cancelled), then a late key holder in pieces of 7 bytes
+    c(LD, [["connect"], ["connected", 1], ["inbound"], ["data", 1, hx(E_s[:40])], ["data", 0, hx(E_s)], ["accept"]]
+      + pieces(2, E_s, 7) + [["lost", 2], ["advance", 121]], "late-after-outbound-winner")
+    c(L, [["connect"], ["inbound"], ["data", 0, hx(E_s)], ["accept"], ["data", 1, hx(E_s)], ["lost", 1]], "late-after-inbound-winner")
+    c(dict(role="S", listener=True, directs=0, relays=[0]),
+      [["connect"], ["advance", 0], ["connected", 1], ["data", 0, hx(b"ok\n" + E_s)], ["accept"], ["data", 1, hx(E_s[:88])],
+       ["portclosed"], ["data", 1, hx(E_s[88:])]], "late-after-relay-winner")
+    c(L, [["inbound"], ["data", 0, hx(E_s)], ["accept"], ["data", 1, hx(E_s[:50])], ["connect"], ["data", 1, hx(E_s[50:])],
+          ["advance", 120]], "late-after-early-winner")
+    c(L, [["connect"], ["inbound"], ["data", 0, hx(E_s)], ["accept"]] + pieces(1, E_s, 1), "late-bytewise")
+    c(L, [["connect"], ["inbound"], ["data", 0, hx(E_s)], ["lost", 0], ["accept"], ["data", 1, hx(E_s)]], "late-after-winner-lost")
+    c(L, [["connect"], ["inbound"], ["data", 0, hx(E_s + b"\x00\x00\x00\x02\x00")], ["accept"], ["data", 1, hx(E_s + b"\x00\x00")],
+          ["data", 0, "41"]], "late-while-winner-mid-record")
+    # the winner has hung up by itself (a record that does not authenticate): it is the winner all the same
+    c(L, [["connect"], ["inbound"], ["data", 0, hx(E_s + b"\x00\x00\x00\x00")], ["accept"], ["data", 1, hx(E_s[:70])], ["lost", 0],
+          ["data", 1, hx(E_s[70:])]], "late-after-winner-record-error")
+    c(L, [["connect"], ["inbound"], ["data", 0, hx(E_s)], ["accept"], ["accept"], ["data", 1, hx(E_s[:30])], ["data", 2, hx(E_s[:60])],
+          ["data", 1, hx(E_s[30:])], ["data", 2, hx(E_s[60:])], ["lost", 2], ["lost", 1]], "late-two-interleaved")
+    c(L, [["connect"], ["inbound"], ["data", 0, hx(E_s)], ["accept"], ["data", 1, hx(E_s[:-1])], ["advance", 59], ["advance", 1],
+          ["lost", 1]], "late-partial-times-out")
+    c(L, [["connect"], ["inbound"], ["data", 0, hx(E_s)], ["accept"], ["data", 1, hx(E_s[:-1] + b"x")]], "late-last-byte-wrong")
+    c(L, [["connect"], ["inbound"], ["data", 0, hx(E_s)], ["accept"], ["data", 1, hx(b"GET / HTTP/1.0\r\n\r\n")], ["accept"],
+          ["data", 2, hx(transit.build_receiver_handshake(OTHER_KEY))]], "late-stranger-and-wrong-key")
+    # not possible (skipped by world and model alike): before any selection; without a listener; after a FAILED connect()
+    c(L, [["accept"], ["connect"], ["accept"], ["inbound"], ["accept"], ["data", 0, hx(E_s[:10])], ["accept"]], "late-not-before-selection")
+    c(dict(role="S", listener=False, directs=1, relays=[]), [["connect"], ["connected", 0], ["data", 0, hx(E_s)], ["accept"]], "late-no-listener")
+    c(L, [["connect"], ["advance", 120], ["accept"], ["inbound"]], "late-not-after-failure")
+    # the Receiver: its late connection hears nevermind from an honest Sender (or nothing, or rubbish)
+    c(R, [["connect"], ["inbound"], ["data", 0, hx(E_r + GO)], ["accept"], ["data", 1, hx(E_r[:20])], ["data", 1, hx(E_r[20:] + NEVERMIND)],
+          ["lost", 1]], "late-receiver-nevermind")
+    c(R, [["connect"], ["connected", 1], ["data", 0, hx(E_r + GO)], ["accept"], ["data", 1, hx(E_r)], ["advance", 60], ["lost", 1]], "late-receiver-silent-sender")
+    c(R, [["connect"], ["inbound"], ["data", 0, hx(E_r + GO)], ["accept"], ["data", 1, hx(b"SSH-2.0-OpenSSH_9.6\r\n")]], "late-receiver-stranger")
+    # the late key holder's handshake cut at EVERY byte position, with something else happening at the cut
+    for pos in range(len(E_s) + 1):
+        mid = [[], [["advance", 1]], [["lost", 0]], [["portclosed"]], [["accept"], ["data", 2, hx(E_s[:pos])]]][pos % 5]
+        ops = [["connect"], ["inbound"], ["data", 0, hx(E_s)], ["accept"]]
+        if pos:
+            ops.append(["data", 1, hx(E_s[:pos])])
+        ops += mid
+        if pos < len(E_s):
+            ops.append(["data", 1, hx(E_s[pos:])])
+        c(L, ops, "late-cut")
     return out
 
 
@@ -942,6 +1181,33 @@ def exhaustive(rng, nconn, npts, max_cases=None):
                 ops.append(["data", i, hx(pieces[i][pos[i]])])
                 pos[i] += 1
             out.append(dict(cfg=dict(role=role, listener=True, directs=0, relays=[]), ops=ops, kinds=[], gen=f"exh{nconn}x{npts}"))
+    return out
+
+
+def exhaustive_late(rng, nlate, npts, max_cases=None):
+    """a decided Sender (an inbound winner, a cancelled half-negotiated loser), then `nlate` late key holders with
+    `npts` progress points each: every order of their byte-level progress"""
+    out = []
+    w = World(dict(role="S", listener=True, directs=0, relays=[]))
+    E = w.expect_this
+    pieces = []
+    for _ in range(nlate):
+        cut = sorted(set(rng.sample(range(1, len(E)), npts - 1))) if npts > 1 else []
+        if npts >= 3 and rng.random() < 0.5:
+            cut = [len(E) - 4, len(E) - 1][:npts - 1]
+        pieces.append([E[a:b] for a, b in zip([0] + cut, cut + [len(E)])])
+    allp = list(interleavings([npts] * nlate))
+    if max_cases and len(allp) > max_cases:
+        allp = rng.sample(allp, max_cases)
+    for order in allp:
+        pos = [0] * nlate
+        ops = [["inbound"], ["inbound"], ["data", 1, hx(E[:rng.randrange(1, len(E))])], ["data", 0, hx(E)]]
+        ops.insert(rng.randrange(len(ops) + 1), ["connect"])
+        ops += [["accept"] for _ in range(nlate)]
+        for i in order:
+            ops.append(["data", 2 + i, hx(pieces[i][pos[i]])])
+            pos[i] += 1
+        out.append(dict(cfg=dict(role="S", listener=True, directs=0, relays=[]), ops=ops, kinds=[], gen=f"exhlate{nlate}x{npts}"))
     return out
 
 
@@ -1023,6 +1289,14 @@ class DuoWorld:
                 a, b = len(self.S.conns), len(self.R.conns)
                 self.S.op(["inbound"]); self.R.op(["connected", op[2]])
                 self.links.append((a, b, False))
+            elif how == "sl":
+                # a LATE link: the Receiver's direct dial `op[2]` reaches the Sender's port after the Sender has made its
+                # selection (the Receiver's second address, a slow route); the port hands it to the factory all the same
+                if not (self.S.can_accept() and self._can_connect(self.R, op[2], False)):
+                    return None
+                a, b = len(self.S.conns), len(self.R.conns)
+                self.S.op(["accept"]); self.R.op(["connected", op[2]])
+                self.links.append((a, b, False))
             elif how == "r":
                 if not (self.R.port_open() and self._can_connect(self.S, op[2], False)):
                     return None
@@ -1087,7 +1361,7 @@ class DuoWorld:
                     v.append(("same-link-without-handshake", f"link {a}-{b}: the Receiver saw {R.conns[b]['rx'][:50]!r}"))
             for W, w, nm in ((S, a, "S"), (R, b, "R")):
                 for i, c in enumerate(W.conns):
-                    if i != w and not c["tr"].lost and not c["gone"]:
+                    if i != w and not c["tr"].lost and not c["gone"] and not c["forced"]:
                         v.append(("other-end-open", f"both results are out but {nm} conn {i} is still open "
                                                     f"(state={c['p'].state})"))
 
@@ -1113,7 +1387,18 @@ def run_duo(case):
     tags.append(f"duo-links:{len(w.links)}")
     if any(l[2] for l in w.links):
         tags.append("duo-relay-link")
+    tags += late_tags(w.S, "duo-") + late_tags(w.R, "duo-")
+    late_links = [l for l in w.links if w.S.conns[l[0]]["forced"]]
+    if late_links:
+        tags.append(f"duo-late-links:{len(late_links)}")
     nontrivial = bool(w.links) or any(c["p"].state in ("records", "hung up") for c in w.S.conns + w.R.conns)
+    for W, nm in ((w.S, "S"), (w.R, "R")):
+        zv, zt = zombie_probe(W, "duo-")
+        tags += zt
+        for s_, m in zv:
+            if s_ not in seen:
+                seen.add(s_)
+                viol.append((s_, nm + ": " + m))
     return Result(lines, exp, viol, tags, nontrivial)
 
 
@@ -1124,6 +1409,8 @@ def gen_duo(rng, big=False):
     if not cfg["lS"] and not cfg["lR"] and not (cfg["rS"] and cfg["rR"]):
         cfg["lS"] = True
         cfg["dR"] = max(cfg["dR"], 1)
+    if cfg["lS"] and rng.random() < 0.3:
+        cfg["dR"] = rng.choice([2, 2, 3])        # the Receiver knows several addresses of the Sender: late links
     if cfg["lS"] and rng.random() < 0.25:
         cfg["kS"] = True
     if cfg["lR"] and rng.random() < 0.1:
@@ -1173,10 +1460,15 @@ def gen_duo(rng, big=False):
             ch += [[side, "advance", rng.choice([0, 1, 2, 2, 30, 60, 61, 120])]]
             if W.port is not None and W.port.closing():
                 ch += [[side, "portclosed"]] * 4
+            if W.can_accept() and len(W.conns) < 5:
+                ch += [[side, "accept"]]            # a stranger arrives late
         # links that can be made now
         for k in range(len(w.R.labels)):
             if w.S.port_open() and w._can_connect(w.R, k, False):
                 ch += [["link", "s", k]] * 5
+        for k in range(len(w.R.labels)):
+            if w.S.can_accept() and w._can_connect(w.R, k, False):
+                ch += [["link", "sl", k]] * 12      # the Receiver's other dial arrives after the Sender's selection
         for k in range(len(w.S.labels)):
             if w.R.port_open() and w._can_connect(w.S, k, False):
                 ch += [["link", "r", k]] * 5
@@ -1190,7 +1482,8 @@ def gen_duo(rng, big=False):
                     ch += [["fwd", d, l, rng.choice([1, 2, 3, 5, 40, 86, 87, 88, 200])]] * 8
         if not ch:
             break
-        op = list(rng.choice(ch))
+        late = [o for o in ch if o[:2] == ["link", "sl"]]
+        op = list(rng.choice(late if late and rng.random() < 0.5 else ch))
         if op[1] == "data":
             op[3] = hx(stranger[(op[0], op[2])].pop(0))
         do(op)
@@ -1259,6 +1552,25 @@ def corpus_duo():
     c(dict(lS=True, dR=1), [["S", "connect"], ["S", "advance", 120], ["R", "connect"], ["link", "s", 0], ["R", "connfail", 0]], "late-receiver")
     # the link is cut before go arrives
     c(dict(lS=True, dR=1), both + [["link", "s", 0], ["fwd", "RS", 0, 200], ["R", "lost", 0], ["R", "advance", 120]], "cut-before-go")
+    # LATE links: the Receiver dials the Sender's port twice (two addresses); the second dial is handed to the factory after
+    # the Sender has said go on the first.  It must hear nevermind, whichever of the two answers reaches the Receiver first.
+    for first in (1, 0):
+        c(dict(lS=True, dR=2), both + [["link", "s", 0], ["fwd", "RS", 0, 200], ["link", "sl", 1], ["fwd", "RS", 1, 200],
+                                       ["fwd", "SR", first, 200], ["fwd", "SR", 1 - first, 200], ["S", "lost", 1], ["R", "lost", 1]], f"late-link-{first}")
+    c(dict(lS=True, dR=2), both + [["link", "s", 0], ["fwd", "RS", 0, 200], ["link", "sl", 1], ["fwd", "RS", 1, 40], ["fwd", "SR", 0, 50],
+                                   ["fwd", "RS", 1, 48], ["S", "portclosed"], ["fwd", "RS", 1, 1], ["fwd", "SR", 1, 200], ["fwd", "SR", 0, 200]], "late-link-pieces")
+    # the Sender's winner is its own dial to the Receiver's port; the Receiver's dial reaches the Sender's port late
+    c(dict(lS=True, dS=1, lR=True, dR=1),
+      both + [["link", "r", 1], ["fwd", "RS", 0, 200], ["link", "sl", 1], ["fwd", "RS", 1, 200], ["fwd", "SR", 1, 200],
+              ["fwd", "SR", 0, 200]], "late-link-after-outbound-winner")
+    # via the relay first, then a late direct dial
+    c(dict(lS=True, rS=[0], rR=[0], dR=1), both + [["S", "advance", 2], ["R", "advance", 2], ["link", "y", 1, 1], ["fwd", "RS", 0, 200],
+                                                   ["link", "sl", 0], ["fwd", "RS", 1, 200], ["fwd", "SR", 1, 200], ["fwd", "SR", 0, 200]], "late-link-after-relay-winner")
+    # a late stranger at either side
+    c(dict(lS=True, lR=True, dS=1, dR=1),
+      both + [["link", "s", 1], ["fwd", "RS", 0, 200], ["S", "accept"], ["S", "data", 1, hx(b"transit receiver 00 ready\n\n")],
+              ["fwd", "SR", 0, 200], ["R", "accept"], ["R", "data", 1, hx(b"transit sender 00 ready\n\ngo\n")], ["R", "accept"],
+              ["R", "advance", 60], ["R", "lost", 2]], "late-strangers")
     return out
 
 
@@ -1267,11 +1579,13 @@ def cases(rng, tier):
     if tier == "quick":
         out += exhaustive(rng, 2, 3)
         out += exhaustive(rng, 3, 2, max_cases=30)
+        out += exhaustive_late(rng, 2, 3) + exhaustive_late(rng, 3, 2, max_cases=30)
         out += [gen_case(rng) for _ in range(350)]
         out += corpus_duo() + [gen_duo(rng) for _ in range(150)]
     else:
         out += exhaustive(rng, 2, 3)
         out += exhaustive(rng, 3, 3)
+        out += exhaustive_late(rng, 2, 3) + exhaustive_late(rng, 3, 3)
         out += [gen_case(rng, big=(j % 4 == 0)) for j in range(9000)]
         out += corpus_duo() + [gen_duo(rng, big=(j % 4 == 0)) for j in range(4000)]
     return out
@@ -1281,7 +1595,7 @@ def search(rng, seconds, seeds):
     t0 = time.time()
     for c in seeds:
         yield c, run_case(c)
-    for c in corpus() + corpus_duo() + exhaustive(rng, 2, 3):
+    for c in corpus() + corpus_duo() + exhaustive(rng, 2, 3) + exhaustive_late(rng, 2, 3):
         yield c, run_case(c)
     while time.time() - t0 < seconds:
         c = gen_case(rng, big=True) if rng.random() < 0.6 else gen_duo(rng, big=True)
@@ -1291,8 +1605,8 @@ def search(rng, seconds, seeds):
 def shrink(case):
     ops = case["ops"]
     for i in reversed(range(len(ops))):
-        if ops[i][0] in ("inbound", "connected", "link") or (case.get("duo") and len(ops[i]) > 1
-                                                              and ops[i][1] in ("inbound", "connected")):
+        if ops[i][0] in ("inbound", "connected", "link", "accept") or (case.get("duo") and len(ops[i]) > 1
+                                                                        and ops[i][1] in ("inbound", "connected", "accept")):
             continue          # would renumber the connections
         c = dict(case)
         c["ops"] = ops[:i] + ops[i + 1:]
